@@ -48,6 +48,22 @@ pub struct SolverCache<D: DependencyProvider> {
     hint_dependencies_available: RefCell<BitVec>,
 }
 
+/// Removes the in-flight marker of a `get_candidates` request and wakes
+/// everybody who waits for it, also when the requesting future is dropped
+/// half-way.
+struct InFlightGuard<'a> {
+    in_flight: &'a RefCell<HashMap<NameId, Rc<Event>>>,
+    package_name: NameId,
+}
+
+impl Drop for InFlightGuard<'_> {
+    fn drop(&mut self) {
+        if let Some(notifier) = self.in_flight.borrow_mut().remove(&self.package_name) {
+            notifier.notify(usize::MAX);
+        }
+    }
+}
+
 impl<D: DependencyProvider> SolverCache<D> {
     /// Constructs a new instance from a provider.
     pub fn new(provider: D) -> Self {
@@ -108,10 +124,17 @@ impl<D: DependencyProvider> SolverCache<D> {
                             .expect("after waiting for a request the result should be available")
                     }
                     None => {
-                        // Prepare an in-flight notifier for other requests coming in.
+                        // Prepare an in-flight notifier for other requests coming in. The
+                        // guard removes the notifier again if this future is dropped before
+                        // the provider has answered (e.g. because solving was cancelled),
+                        // otherwise a later request would wait for it forever.
                         self.package_name_to_candidates_in_flight
                             .borrow_mut()
                             .insert(package_name, Rc::new(Event::new()));
+                        let in_flight_guard = InFlightGuard {
+                            in_flight: &self.package_name_to_candidates_in_flight,
+                            package_name,
+                        };
 
                         // Otherwise we have to get them from the DependencyProvider
                         let candidates = self
@@ -147,12 +170,7 @@ impl<D: DependencyProvider> SolverCache<D> {
 
                         // Remove the in-flight request now that we inserted the result and notify
                         // any waiters
-                        let notifier = self
-                            .package_name_to_candidates_in_flight
-                            .borrow_mut()
-                            .remove(&package_name)
-                            .expect("notifier should be there");
-                        notifier.notify(usize::MAX);
+                        drop(in_flight_guard);
 
                         candidates_id
                     }
